@@ -4,7 +4,10 @@
 //     returns an address, and whether its revert() reaches a function that appends to the journal;
 //   - every exported method of *StateDB / *stateObject with the journal entry kinds it can append
 //     (transitively, through calls to other functions of package state);
-//   - the method set of the vm.StateDB interface (what the EVM can call).
+//   - the method set of the vm.StateDB interface (what the EVM can call);
+//   - core/vm: which functions of *EVM run code in a frame and whether each of them takes and reverts
+//     to the FULL EVM snapshot (state revision + ETX cache + lockup lists), who uses the bare StateDB
+//     revision, and which fields of struct EVM are assigned where (side state a frame could leave behind).
 // Model/C12.v + Props/C12.v prove boolean side conditions over this data, so a new journal kind, a
 // mutator that starts/stops journalling, or a new EVM-visible method breaks an obligation.
 package main
@@ -286,6 +289,139 @@ func main() {
 		fmt.Fprintln(os.Stderr, "c12journal: EVM.revertToSnapshot not found")
 		os.Exit(1)
 	}
+	// ---- EVM frame layer: core/vm/*.go ----
+	// (a) functions of *EVM that run code in a frame (they call <...>.interpreter.Run): how often they take the
+	//     FULL snapshot (evm.snapshot()), revert to it (evm.revertToSnapshot(..)), and how often they go to
+	//     the StateDB revision directly (<...>.StateDB.Snapshot() / .RevertToSnapshot(..));
+	// (b) every function of package vm that uses the StateDB revision directly;
+	// (c) fields of struct EVM assigned anywhere in the package (evm.F = .., <..>.evm.F = ..) with the
+	//     functions doing it, the fields assigned by revertToSnapshot, and the fields of evmSnapshot.
+	type frameFn struct {
+		name                       string
+		full, fullRevert, raw, run int
+	}
+	var frameFns []frameFn
+	rawUsers := map[string]bool{}
+	evmFields := map[string]bool{}
+	assigned := map[string]map[string]bool{}
+	var snapFields []string
+	vmDir := filepath.Join(*repo, "core", "vm")
+	vents, err := os.ReadDir(vmDir)
+	if err != nil {
+		fmt.Fprintln(os.Stderr, err)
+		os.Exit(1)
+	}
+	var vmFiles []*ast.File
+	for _, e := range vents {
+		n := e.Name()
+		if !strings.HasSuffix(n, ".go") || strings.HasSuffix(n, "_test.go") || strings.HasPrefix(n, "verif_") {
+			continue
+		}
+		f, err := parser.ParseFile(fset, filepath.Join(vmDir, n), nil, 0)
+		if err != nil {
+			fmt.Fprintln(os.Stderr, err)
+			os.Exit(1)
+		}
+		vmFiles = append(vmFiles, f)
+		for _, d := range f.Decls {
+			gd, ok := d.(*ast.GenDecl)
+			if !ok {
+				continue
+			}
+			for _, sp := range gd.Specs {
+				ts, ok := sp.(*ast.TypeSpec)
+				if !ok {
+					continue
+				}
+				st, ok := ts.Type.(*ast.StructType)
+				if !ok {
+					continue
+				}
+				for _, fl := range st.Fields.List {
+					for _, nm := range fl.Names {
+						if ts.Name.Name == "EVM" {
+							evmFields[nm.Name] = true
+						}
+						if ts.Name.Name == "evmSnapshot" {
+							snapFields = append(snapFields, nm.Name)
+						}
+					}
+				}
+			}
+		}
+	}
+	isEvmExpr := func(e ast.Expr) bool { // evm | <x>.evm
+		switch v := e.(type) {
+		case *ast.Ident:
+			return v.Name == "evm"
+		case *ast.SelectorExpr:
+			return v.Sel.Name == "evm"
+		}
+		return false
+	}
+	for _, f := range vmFiles {
+		for _, d := range f.Decls {
+			fd, ok := d.(*ast.FuncDecl)
+			if !ok || fd.Body == nil {
+				continue
+			}
+			ff := frameFn{name: fd.Name.Name}
+			ast.Inspect(fd.Body, func(nd ast.Node) bool {
+				switch v := nd.(type) {
+				case *ast.CallExpr:
+					se, ok := v.Fun.(*ast.SelectorExpr)
+					if !ok {
+						return true
+					}
+					switch se.Sel.Name {
+					case "snapshot":
+						if isEvmExpr(se.X) {
+							ff.full++
+						}
+					case "revertToSnapshot":
+						if isEvmExpr(se.X) {
+							ff.fullRevert++
+						}
+					case "Snapshot", "RevertToSnapshot":
+						if in, ok := se.X.(*ast.SelectorExpr); ok && in.Sel.Name == "StateDB" {
+							ff.raw++
+							rawUsers[fd.Name.Name] = true
+						}
+					case "Run":
+						if in, ok := se.X.(*ast.SelectorExpr); ok && in.Sel.Name == "interpreter" {
+							ff.run++
+						}
+					}
+				case *ast.AssignStmt:
+					for _, l := range v.Lhs {
+						if se, ok := l.(*ast.SelectorExpr); ok && isEvmExpr(se.X) && evmFields[se.Sel.Name] {
+							if assigned[se.Sel.Name] == nil {
+								assigned[se.Sel.Name] = map[string]bool{}
+							}
+							assigned[se.Sel.Name][fd.Name.Name] = true
+						}
+					}
+				case *ast.IncDecStmt:
+					if se, ok := v.X.(*ast.SelectorExpr); ok && isEvmExpr(se.X) && evmFields[se.Sel.Name] {
+						if assigned[se.Sel.Name] == nil {
+							assigned[se.Sel.Name] = map[string]bool{}
+						}
+						assigned[se.Sel.Name][fd.Name.Name] = true
+					}
+				}
+				return true
+			})
+			if ff.run > 0 && recvName(fd) == "EVM" {
+				frameFns = append(frameFns, ff)
+			}
+		}
+	}
+	sort.Slice(frameFns, func(i, j int) bool { return frameFns[i].name < frameFns[j].name })
+	if len(frameFns) == 0 || len(evmFields) == 0 || len(snapFields) == 0 {
+		fmt.Fprintln(os.Stderr, "c12journal: EVM frame functions / struct EVM / evmSnapshot not found")
+		os.Exit(1)
+	}
+
 	if len(kinds) == 0 || len(sdbM) == 0 || len(iface) == 0 {
 		fmt.Fprintln(os.Stderr, "c12journal: nothing found (source layout changed?)")
 		os.Exit(1)
@@ -347,6 +483,45 @@ func main() {
 	fmt.Fprintf(&sb, "Definition gen_size_revert_rejournals : bool := %s.  (* sizeChange.revert goes through a journalling setter *)\n", b(sizeRejournals))
 	fmt.Fprintf(&sb, "Definition gen_evm_revert_restores_batch : bool := %s. (* EVM.revertToSnapshot writes to the batch *)\n", b(evmRestoresBatch))
 	fmt.Fprintf(&sb, "Definition gen_create_reverts_on_codestore_oog : bool := %s. (* EVM.create reverts when the code deposit runs out of gas *)\n", b(!createExemptsCodeStoreOOG))
+	sb.WriteString("\n(* functions of *EVM that run code in a frame: name, calls of evm.snapshot(), of evm.revertToSnapshot(), direct uses of the StateDB revision *)\n")
+	sb.WriteString("Definition evm_frame_functions : list (string * nat * nat * nat) := [\n")
+	for i, ff := range frameFns {
+		sep := ";"
+		if i == len(frameFns)-1 {
+			sep = ""
+		}
+		fmt.Fprintf(&sb, "  (%s, %d, %d, %d)%s\n", q(ff.name), ff.full, ff.fullRevert, ff.raw, sep)
+	}
+	sb.WriteString("].\n\n")
+	var ru []string
+	for k := range rawUsers {
+		ru = append(ru, k)
+	}
+	sort.Strings(ru)
+	sb.WriteString("(* every function of package vm that calls <..>.StateDB.Snapshot / RevertToSnapshot directly *)\n")
+	fmt.Fprintf(&sb, "Definition vm_raw_revision_users : list string := %s.\n\n", ql(ru))
+	sb.WriteString("(* fields of struct evmSnapshot *)\n")
+	fmt.Fprintf(&sb, "Definition evm_snapshot_fields : list string := %s.\n\n", ql(snapFields))
+	sb.WriteString("(* fields of struct EVM that are assigned somewhere in package vm, with the functions assigning them *)\n")
+	sb.WriteString("Definition evm_assigned_fields : list (string * list string) := [\n")
+	var af []string
+	for k := range assigned {
+		af = append(af, k)
+	}
+	sort.Strings(af)
+	for i, k := range af {
+		var fl []string
+		for f := range assigned[k] {
+			fl = append(fl, f)
+		}
+		sort.Strings(fl)
+		sep := ";"
+		if i == len(af)-1 {
+			sep = ""
+		}
+		fmt.Fprintf(&sb, "  (%s, %s)%s\n", q(k), ql(fl), sep)
+	}
+	sb.WriteString("].\n")
 	if *out == "" {
 		fmt.Print(sb.String())
 		return
